@@ -15,6 +15,7 @@ import (
 	"math"
 	"math/rand"
 	"os"
+	"sort"
 	"strconv"
 
 	"gitlab.com/gomidi/midi/v2"
@@ -610,6 +611,7 @@ func (g *gen) record(id int) *Rec {
 	for k := range g.feat {
 		rec.Feat = append(rec.Feat, k)
 	}
+	sort.Strings(rec.Feat)
 	return rec
 }
 
